@@ -157,9 +157,19 @@ pub fn uadv(thorough: bool) -> Vec<(String, Pats)> {
         (0..deep.len()).rev().map(|i| deep[i..].to_vec()).collect(),
     ));
     // fan-out of one state: around the 127 sparse limit, and all 256 bytes
-    for n in [126usize, 127, 128, 130, 256] {
+    // (a contiguous-NFA sparse state stores its transition count in one byte
+    // next to the sentinels 0xFE / 0xFF: 253..=256 matter as well)
+    let fans: Vec<usize> = if thorough { (1..=256).collect() } else { vec![126, 127, 128, 130, 253, 254, 255, 256] };
+    for n in fans {
         let pats: Pats = (0..n).map(|i| vec![b'x', i as u8]).collect();
         v.push((format!("fan{}", n), pats));
+    }
+    // the same below every dense depth (depth 3), bytes 0x01.. so that the
+    // set of used bytes differs from the depth-1 family
+    let deep_fans: Vec<usize> = if thorough { vec![1, 2, 126, 127, 128, 129, 200, 252, 253, 254, 255] } else { vec![127, 128, 253, 254, 255] };
+    for n in deep_fans {
+        let pats: Pats = (0..n).map(|i| vec![b'a', b'b', b'c', (i + 1) as u8]).collect();
+        v.push((format!("deepfan{}", n), pats));
     }
     v.push(("all256-single".into(), (0..=255u8).map(|i| vec![i]).collect()));
     // number of patterns around the automatic kind switch (<= 100 -> DFA)
